@@ -415,6 +415,24 @@ func checkPackagerStores(c *Ctx, r *Report) {
 			continue
 		}
 		forEachInstr(fn, func(in ssa.Instruction) {
+			if mu, isMU := in.(*ssa.MapUpdate); isMU {
+				// an update of a map that belongs to the configuration (custom
+				// fields, an override's section): visible to every later Get
+				if _, fresh := mu.Map.(*ssa.MakeMap); fresh {
+					return
+				}
+				owned := ""
+				for _, a := range w4pa.Of(mu.Map).list() {
+					if strings.HasPrefix(a, "Info.") || strings.HasPrefix(a, "Overridables.") || strings.HasPrefix(a, "Config.") {
+						owned = a
+					}
+				}
+				if owned != "" {
+					n++
+					r.Fail("W4-validate-readonly", fmt.Sprintf("map update #%d in %s", n, c.funcKey(fn)), c.instrPos(mu), "Validate/Get must not write through the configuration: the map updated here is "+owned+", which the parsed configuration (or one of its override blocks) owns - a second Get sees the rewritten values")
+				}
+				return
+			}
 			st, ok := in.(*ssa.Store)
 			if !ok {
 				return
@@ -785,6 +803,11 @@ func ownershipRules(c *Ctx, r *Report) {
 	checkSharedSlices(c, r)
 	checkOutputBuffers(c, r)
 	checkSyncState(c, r)
+	r.Rules = append(r.Rules, "W6-helper-params signing helpers store through none of their pointer parameters", "again-R-ghost-nosource a second preparation finds a ghost's source as empty as the first (rule of C08)")
+	checkHelpersDoNotWriteThroughParams(c, r)
+	// preparing contents that were prepared before changes nothing: the one
+	// place where the first pass leaves a trace the second acts on (rule of C08)
+	checkEmptySourceKept(c, r, "again-R-ghost-nosource")
 	// the Info handed out by Config.Get shares no map or list with the
 	// configuration: it is the destination of the deep-copying base merge
 	// (rules of C13)
@@ -1473,4 +1496,60 @@ func checkSyncState(c *Ctx, r *Report) {
 	}
 	r.Count("sync_once_calls", nOnce)
 	r.Count("sync_pool_puts", nPool)
+}
+
+// checkHelpersDoNotWriteThroughParams (W6-helper-params): the signing helpers
+// are handed pointers into the settings (the key id is a *string shared with
+// the parsed configuration when the format has no override block). They read
+// through them; a store through such a parameter rewrites the configuration
+// for every later operation.
+func checkHelpersDoNotWriteThroughParams(c *Ctx, r *Report) {
+	n := 0
+	bad := ""
+	var at ssa.Instruction
+	for _, fn := range c.ModFuncs {
+		if c.funcPkgPath(fn) != modPath+"/internal/sign" {
+			continue
+		}
+		n++
+		forEachInstr(fn, func(in ssa.Instruction) {
+			st, ok := in.(*ssa.Store)
+			if !ok {
+				return
+			}
+			root := st.Addr
+			for i := 0; i < 8; i++ {
+				switch x := root.(type) {
+				case *ssa.FieldAddr:
+					root = x.X
+					continue
+				case *ssa.IndexAddr:
+					root = x.X
+					continue
+				}
+				break
+			}
+			prm, isPrm := root.(*ssa.Parameter)
+			fv, isFV := root.(*ssa.FreeVar)
+			switch {
+			case isPrm:
+				if _, isPtr := prm.Type().Underlying().(*types.Pointer); isPtr && !(fn.Signature.Recv() != nil && fn.Params[0] == prm) {
+					bad, at = "parameter "+prm.Name()+" of "+c.funcKey(fn), st
+				}
+			case isFV:
+				// a captured pointer parameter of the enclosing function
+				if _, isPtr := fv.Type().Underlying().(*types.Pointer); isPtr {
+					if _, isPP := fv.Type().Underlying().(*types.Pointer).Elem().Underlying().(*types.Pointer); !isPP && !isPointerToCell(fv) {
+						bad, at = "captured pointer "+fv.Name()+" in "+c.funcKey(fn), st
+					}
+				}
+			}
+		})
+	}
+	pos := "-"
+	if at != nil {
+		pos = c.instrPos(at)
+	}
+	r.Check(bad == "", "W6-helper-params", "the signing helpers store through none of their pointer parameters", pos,
+		fmt.Sprintf("%d functions examined; store through %s: the pointer leads into the caller's settings (the key id string is shared with the parsed configuration)", n, bad))
 }
